@@ -74,8 +74,8 @@ Invalidate(task, st) ==
   ELSE [st EXCEPT !.ck = [st.ck EXCEPT ![Key(task)] = None]]
 
 Body(mode) ==
-  CASE mode \in {"fail1", "failpre", "cancelsib"} -> [ran |-> <<1>>, exit |-> 201, how |-> "fail"]
-       \* failpre: a nested task call fails on a precondition; cancelsib: the task runs as a dependency next
+  CASE mode \in {"fail1", "failpre", "depfail1", "cancelsib"} -> [ran |-> <<1>>, exit |-> 201, how |-> "fail"]
+       \* failpre: a nested task call fails on a precondition; depfail1: the task is reached as a dependency of another task; cancelsib: the task runs as a dependency next
        \* to a sibling that fails while the task's second command is still running (cancellation)
     [] mode \in {"fail2"} -> [ran |-> <<1, 2>>, exit |-> 201, how |-> "fail"]
     [] mode \in {"kill1"} -> [ran |-> <<1>>, exit |-> 137, how |-> "kill"]
@@ -104,6 +104,9 @@ Predict(mode) ==
     [] mode = "force" ->
          LET b == Body(mode) st == Invalidate(task, keep) IN
          out(b.ran, b.exit, AfterSuccess(task, st))
+    [] mode = "forcefail1" ->   \* a forced run whose first checked command fails: whatever was recorded is forgotten
+         LET st == Invalidate(task, keep) IN
+         out(<<1>>, 201, AfterFailure(task, st))
     [] OTHER ->  \* run, other, fail*, kill*, prompt
          LET c == UpToDate(task, TRUE) st0 == [ck |-> c.ck, mk |-> c.mk] IN
          IF c.up THEN out(<<>>, IF mode = "cancelsib" THEN 201 ELSE 0, st0)
@@ -114,7 +117,7 @@ Predict(mode) ==
                 [] b.how = "fail" -> out(b.ran, b.exit, AfterFailure(task, st))
                 [] b.how = "kill" -> out(b.ran, b.exit, st)
 
-Modes == {"run", "other", "fail1", "fail2", "failpre", "cancelsib", "kill1", "kill2", "prompt", "force", "dry", "status", "list", "listjson", "summary", "drydir", "dryfailpre"}
+Modes == {"run", "other", "fail1", "fail2", "failpre", "depfail1", "forcefail1", "cancelsib", "kill1", "kill2", "prompt", "force", "dry", "status", "list", "listjson", "summary", "drydir", "dryfailpre"}
 
 \* an invocation as the model sees it: the observation is the prediction, read-only modes change nothing
 Invoke(mode) ==
